@@ -26,6 +26,9 @@ def feed(stream, cuts):
         chunks.append(stream[at:c])
         at = c
     chunks.append(stream[at:])
+    # a receive never delivers an EMPTY chunk (b'' is EOF, and the server loops blocks until input arrives): equal cut positions just mean fewer
+    # chunks.  (Re-entering the machine twice without new input trips its own "no progress" assertion -- by design, not a framing matter.)
+    chunks = [c for c in chunks if len(c)] or [[]]
     src = cpppo.chainable(chunks.pop(0))
     data = cpppo.dotdict()
     with M as m:
@@ -186,7 +189,9 @@ for _lo, _hi in ((0, 20), (20, 40), (40, 60), (60, 80), (80, 100), (100, 120), (
               'ending after every byte offset: replies == complete frames, the request processor is never invoked on a partial frame, tag changed '
               'iff the write frame is complete, handler raises iff a frame is partial, socket closed, stats entry removed',
        outside='other sessions/listener thread (C09 territory); UDP')
-define(globals(), 'C02', 'truncation_two_chunks', ['v', 't', 'cut'], "return do_truncate(v, 7, t, cut)",
-       ['-32768 <= v <= 32767 and 0 <= t and 0 <= cut'], tier='thorough', timeout=6000, path_timeout=300, drives=SRV_DRIVES,
+for _lo in range(0, 161, 10):
+  _hi = min(_lo + 10, 161)
+  define(globals(), 'C02', 'truncation_two_chunks_%03d_%03d' % (_lo, _hi), ['v', 't', 'cut'], "return do_truncate(v, 7, %d + t, cut)" % _lo,
+       ['-32768 <= v <= 32767 and 0 <= t < %d and 0 <= cut' % (_hi - _lo)], tier='thorough', timeout=6000, path_timeout=300, drives=SRV_DRIVES,
        stubs=['network.recv -> scripted chunks then EOF', 'conn -> recorder', 'misc.timer -> counter', 'random -> counter', 'main.apidict (per-connection stats) -> dotdict'],
-       bounds='same, the delivered prefix additionally split into two chunks at every position', outside='')
+       bounds='same for truncation offsets [%d, %d), the delivered prefix additionally split into two chunks at EVERY position' % (_lo, _hi), outside='')
